@@ -653,6 +653,42 @@ fn history(r: &mut Report, args: &Args, idx: u64, seed: u64) {
                     return
                 }
             }
+            // on every second cut the repository is first written again on
+            // request (RepositoryManager::write_repository, what the
+            // initialisation and krill's own tests call): a write that
+            // reports success leaves the rsync tree equal to the snapshot,
+            // also when the interrupted one got as far as the notification
+            if m.n % 2 == 0 {
+                r.eval();
+                r.count(&format!("rewrites_{realisation}"), 1);
+                match srv2.w.krill.repo_manager().write_repository() {
+                    Err(e) => {
+                        r.violation(
+                            &format!("rewrite-fails-after-interrupted-write@{realisation}"),
+                            &format!("interrupted before mutation {} ({label}); \
+                                      writing the repository again fails: {e}", m.n),
+                            wit(&steps, json!({"cut": m.n, "label": label,
+                                               "realisation": realisation})));
+                        return
+                    }
+                    Ok(()) => {
+                        if let Ok(st) = rrdpview::read_rrdp(&repo) {
+                            if let Some((sig, detail)) =
+                                rsync_issue(&repo, &st, "rewrite")
+                            {
+                                r.violation(
+                                    &format!("{sig}@rewrite-after-{realisation}"),
+                                    &format!("interrupted before mutation {} \
+                                        ({label}), then a successful rewrite: \
+                                        {detail}", m.n),
+                                    wit(&steps, json!({"cut": m.n, "label": label,
+                                        "realisation": realisation})));
+                                return
+                            }
+                        }
+                    }
+                }
+            }
             let extra = match srv2.publish_random(&mut rng) {
                 Ok(d) => d,
                 Err(e) => {
